@@ -384,14 +384,12 @@ class NamespaceClass(Namespace[symtable.Class]):
             )
 
 
-if sys.version_info < (3, 12):
-
-    def _comp_check(symt: symtable.Function):
-        if symt.get_name() not in ["listcomp", "genexpr", "setcomp", "dictcomp"]:
-            return False
-        if ".0" not in symt.get_parameters():
-            return False
-        return True
+def _comp_check(symt: symtable.Function):
+    if symt.get_name() not in ["listcomp", "genexpr", "setcomp", "dictcomp"]:
+        return False
+    if ".0" not in symt.get_parameters():
+        return False
+    return True
 
 
 def update_globals_from_lambda_or_comp(symt: symtable.Function, stack: list[Namespace]):
@@ -449,6 +447,13 @@ def generate_nsp(symt: symtable.SymbolTable, configs: Configs):
                 if child_symt.get_name() == "lambda":
                     continue
                 if sys.version_info < (3, 12):
+                    if _comp_check(child_symt):
+                        update_globals_from_lambda_or_comp(child_symt, generate_stack)
+                        continue
+                elif isinstance(generate_stack[-1], NamespaceClass):
+                    # 3.12+ inlines comprehensions, but a generator expression
+                    # still has a symbol table of its own: the globals it uses
+                    # are not symbols of the class body
                     if _comp_check(child_symt):
                         update_globals_from_lambda_or_comp(child_symt, generate_stack)
                         continue
